@@ -611,6 +611,115 @@ def rule_class_directed_membership(chk, rid):
                px.method(sk[0], "encode"), m, key=f"{sk[1]}|{sk[2]}")
 
 
+def rule_start_rule_priority(chk, rid):
+    """parse() tries its start rules in order and keeps the first that accepts the whole text. The first one
+    (resource_transform_query) builds a query whose first segment is a header-less *resource* segment. If the canonical text of a
+    query of another shape is accepted by that first rule, re-parsing the canonical text denotes a different query.
+    The rule needs an *exact* model of the parser here (a superset model could only say 'maybe'): Grammar.exact_end interprets the
+    extracted grammar with pyparsing's deterministic semantics. A report is made only with a witness: an accepted spelling of the
+    same query (one character of a string argument percent-escaped) that the first start rule rejects, so the query is really
+    constructible, canonicalises to the printed text, and that text re-parses through the first rule."""
+    repo = chk.repo
+    chk.rule(rid, "start-rule priority: the canonical text of a constructible query whose first segment is not a header-less resource "
+                  "segment is not accepted by the start rule parse() tries first (exact grammar model, witness spelling required)")
+    m = repo.module(P)
+    g = Grammar(m)
+    px = PrinterExtractor(repo)
+    _, env, rows = c03.extract(repo)
+    pf = repo.func(P, "parse")
+    starts = [call_recv(c) for c in calls_in(pf) if call_tail(c) in ("parseString", "parse_string")]
+    if len(starts) < 2 or any(s_ not in g.IR for s_ in starts):
+        raise AnalysisError(f"parse(): start rules {starts} not found in the grammar")
+    first = starts[0]
+    # the class of the first segment the first start rule's action builds
+    acts = [a for a in g.IR[first].kw.get("actions", []) if isinstance(a, ast.Name) and a.id in m.functions]
+    built_first = set()
+    for a in acts:
+        fn = m.functions[a.id]
+        for st in body_walk(fn):
+            if isinstance(st, ast.Assign) and isinstance(st.value, ast.Call) and isinstance(st.value.func, ast.Name) and st.value.func.id in NODE_CLASSES:
+                built_first.add((U(st.targets[0]), st.value.func.id, bool(kwarg(st.value, "header"))))
+    res_first = {c for _, c, has_header in built_first if c == "ResourceQuerySegment" and not has_header}
+    if not res_first:
+        raise AnalysisError(f"{first}: the action does not build a header-less ResourceQuerySegment (rule needs re-reading)")
+    en = Enumerator(repo, g, px, rows, chk.tier)
+    n = 0
+    found = {}
+    # besides the sampled pool: every header-less transform segment that has a non-empty string argument, followed by every
+    # transform segment with a header (the pool's sampling of pairs is too thin to meet this combination)
+    base2 = [q for q in en.pool("Query", 0) if len(q.get("segments") or []) == 2 and not q.get("absolute")]
+    extra = []
+    if base2:
+        tsegs = en.pool("TransformQuerySegment", 0, {"owner": "Query"})
+
+        def has_str(x):
+            return any(p_["__class__"] == "StringActionParameter" and p_.get("string") for a_ in (x.get("query") or []) for p_ in (a_.get("parameters") or []))
+        firsts = [x for x in tsegs if x.get("header") is None and has_str(x)]
+        # plain arguments: copies of the simplest one-action header-less segment with its single string argument set to a plain text
+        import copy as _copy
+        tmpl = sorted((x for x in tsegs if x.get("header") is None and x.get("filename") is None and len(x.get("query") or []) == 1
+                       and len(x["query"][0].get("parameters") or []) == 1 and x["query"][0]["parameters"][0]["__class__"] == "StringActionParameter"),
+                      key=lambda x: len(en.text(x)))
+        for plain in ("A", "1.5", "abc"):
+            if tmpl:
+                y = _copy.deepcopy(tmpl[0])
+                y["query"][0]["parameters"][0]["string"] = plain
+                firsts.insert(0, y)
+        seconds = [x for x in tsegs if x.get("header") is not None]
+        firsts = sorted(firsts, key=lambda x: len(en.text(x)))[:12]
+        seconds = sorted(seconds, key=lambda x: len(en.text(x)))[:8]
+        for a_ in firsts:
+            for b_ in seconds:
+                q2 = dict(base2[0])
+                q2["segments"] = [a_, b_]
+                extra.append(q2)
+    for q in list(en.pool("Query", 0)) + extra:
+        segs = q.get("segments") or []
+        if len(segs) < 2:
+            continue
+        f = segs[0]
+        if f["__class__"] == "ResourceQuerySegment" and f.get("header") is None:
+            continue            # the shape the first rule builds
+        t = en.text(q)
+        n += 1
+        if not g.exact_accepts(first, t):
+            continue
+        # witness: re-spell one character of a string argument of the first segment as %XX
+        wit = None
+        if f["__class__"] == "TransformQuerySegment":
+            ft = en.text(f)
+            for act in f.get("query") or []:
+                for par in act.get("parameters") or []:
+                    if par["__class__"] == "StringActionParameter" and par.get("string"):
+                        enc = en.text(par)
+                        if enc and enc[0].isalnum():
+                            spelled = "%%%02X" % ord(enc[0]) + enc[1:]
+                            at = ft.find("-" + enc)
+                            if at >= 0:
+                                ft2 = ft[:at + 1] + spelled + ft[at + 1 + len(enc):]
+                                cand = t.replace(ft, ft2, 1) if t.startswith(ft) or t.startswith("/" + ft) else None
+                                if cand and not g.exact_accepts(first, cand) and any(g.exact_accepts(s_, cand) for s_ in starts[1:]):
+                                    wit = cand
+                        if wit:
+                            break
+                if wit:
+                    break
+        if wit:
+            sk = (f["__class__"], local_shape(f))
+            if sk not in found or len(wit) < len(found[sk][0]):
+                found[sk] = (wit, t)
+    chk.count("multi-segment sentences tested against the first start rule", n)
+    chk.floor(rid, n, 20, "multi-segment sentences")
+    C = f"{P}.parse"
+    if not found:
+        chk.ob(rid, C, True, f"no canonical text of another shape is captured by `{first}` ({n} sentences)", pf, m, key=f"priority:{first}")
+    else:
+        wit, t = min(found.values(), key=lambda x: len(x[0]))
+        chk.ob(rid, C, False, f"`{wit}` is accepted (by {starts[1]}) as a query starting with a transformation segment; its canonical text `{t}` is "
+               f"accepted by `{first}`, which parse() tries first and which builds a query starting with a header-less resource segment: the canonical "
+               "text denotes a different query", pf, m, key=f"priority:{first}")
+
+
 # --------------------------------------------------------------------------- C02.2
 def rule_encode_reads_fields(chk, rid):
     repo = chk.repo
@@ -746,3 +855,4 @@ def run(chk):
                         "urllib.parse.quote (stdlib) models the library call made by encode_token (shape checked by C03.T4)"]
     X.rule_printer_injective(chk, "C02.6")
     rule_class_directed_membership(chk, "C02.7")
+    rule_start_rule_priority(chk, "C02.8")
